@@ -641,6 +641,23 @@ func c08ShutdownFirst(c *Ctx, k *core) {
 						}
 					}
 				}
+				// ... or (the poll folded back in from a predicate helper) the blocking select cannot follow the ready
+				// arm - with the joined flag taken as on that edge - and every return that can is a failure
+				if !okP && len(arm.Preds) == 1 {
+					reachesSel := reachesPruned(arm.Preds[0], arm, func(i ssa.Instruction) bool { return i == ssa.Instruction(op.Sel) })
+					rets := returnsReachableFrom(arm.Preds[0], arm)
+					allFalse := len(rets) > 0
+					for _, r := range rets {
+						rv := retVals(r)
+						cst, ok := rv[0].(*ssa.Const)
+						if len(rv) != 1 || !ok || cst.Value == nil || cst.Value.ExactString() != "false" {
+							allFalse = false
+						}
+					}
+					if !reachesSel && allFalse {
+						okP = true
+					}
+				}
 			}
 			c.check(okP, "shutdown-checked-first", relName(f)+"#cbch-send", op.Sel.Pos(), "a non-blocking poll of monDone that returns false dominates the blocking select with the queue send", "the blocking select offers the send on the (buffered) callback queue together with the shutdown channel without polling the shutdown channel first: after the monitor has exited both are ready and the call reports success at random")
 		}
